@@ -1,6 +1,7 @@
 //! Shared helpers for the per-property harness binaries (generators + implementation runners).
 //! Every random choice derives from one SplitMix64 state.
 pub mod codec;
+pub mod argtext;
 use std::io::{self, BufRead, Write};
 
 pub struct Rng(pub u64);
